@@ -38,7 +38,8 @@ MUTS = ["none", "none", "kind", "sig", "signer", "chal-other-live", "chal-closed
         "chal-missing", "chal-dup-right-first", "chal-dup-wrong-first", "relay-missing", "relay-dup-right-first",
         "relay-dup-wrong-first", "relay-substring", "relay-host-only", "relay-empty", "relay-superstring", "relay-scheme",
         "relay-port", "relay-bare", "relay-upper", "relay-second-url", "extra-tags", "d-601", "d-600", "d-599", "d599",
-        "d600", "d601", "payload-str", "payload-list", "payload-null", "id-forged", "content"]
+        "d600", "d601", "payload-str", "payload-list", "payload-null", "id-forged", "content", "ts-nan", "ts-inf",
+        "ts-neg-inf", "ts-string-old", "ts-float-old"]
 
 
 def build(k, challenge, now, mut, other_chal, closed_chal):
@@ -94,6 +95,16 @@ def build(k, challenge, now, mut, other_chal, closed_chal):
         ts = int(now) + delta
         verdict = "must" if abs(delta) < 600 else "may" if abs(delta) == 600 else "mustnot"
     ev = E.make(k, kind, ts, tags, "auth" if mut == "content" else "")
+    if mut in ("ts-nan", "ts-inf", "ts-neg-inf", "ts-string-old", "ts-float-old"):
+        # a timestamp that is not "within ten minutes of now"; the event is signed over exactly what is sent
+        ts2 = {"ts-nan": float("nan"), "ts-inf": float("inf"), "ts-neg-inf": float("-inf"),
+               "ts-string-old": str(int(now) - 100000), "ts-float-old": float(int(now) - 100000)}[mut]
+        from aionostr.event import Event
+
+        ev["created_at"] = ts2
+        ev["id"] = Event.compute_id(ev["pubkey"], ts2, kind, tags, ev["content"])
+        ev["sig"] = E.sign_id(k, ev["id"])
+        verdict = "mustnot"
     if mut == "sig":
         ev["sig"] = ev["sig"][:10] + ("0" if ev["sig"][10] != "0" else "1") + ev["sig"][11:]
         verdict = "mustnot"
